@@ -729,11 +729,16 @@ fn main() {
     let mut out = Out::new();
     let th = thorough();
     let mut r = Rng::new(seed());
-    let n_random = arg_u64("--scenarios", if th { 1480 } else { 36 }) as usize;
-    let cap = arg_u64("--cap", if th { 1200 } else { 700 }) as usize;
+    let n_random = arg_u64("--scenarios", if th { 1480 } else { 40 }) as usize;
+    let cap = arg_u64("--cap", if th { 1200 } else { 1500 }) as usize;
     let mut scns = fixed_scenarios();
     for _ in 0..n_random {
         scns.push(random_scenario(&mut r));
+    }
+    // the initial network must be inside the boundary, or nothing is explored
+    for s in scns.iter_mut() {
+        let init_len: usize = s.actors.iter().map(|a| a.start.iter().filter(|c| matches!(c, Cmd::Send(..))).count()).sum();
+        s.bound = s.bound.max(init_len + 1);
     }
     // equal scenario texts would only repeat the same requests
     let mut seen_scn: HashSet<String> = HashSet::new();
